@@ -16,6 +16,7 @@ import DTML.Scan
 import DTML.Parse
 import DTML.Render
 import DTML.Tmpl
+import DTML.Conc
 open Lean DTML
 
 namespace Driver
@@ -548,6 +549,50 @@ def opTmpl (j : Json) : Except String Json := do
 
 end TJ
 
+
+namespace CJ
+open DTML.Conc
+
+/-- concrete engine of the correspondence: the program is "the compilation of source n", a
+rendering is the pair (program, thread input); there are no lazily filled cells at render time
+(the shared-write monitor of the harness checks exactly that) -/
+def engine : Engine Nat Nat Nat Nat Nat (Int × Int) :=
+  { parse := fun s => s, cellsOf := fun _ => [], cellVal := fun c => c,
+    exec := fun p i _ => (p, i), crash := (-1, -1) }
+
+def pcName : PC Nat Nat Nat (Int × Int) → String
+  | .test => "test" | .acquire => "acquire" | .writeBlocks => "writeBlocks" | .writeFlag => "writeFlag"
+  | .release => "release" | .readBlocks => "readBlocks" | .cells _ _ _ => "finish" | .done _ => "done"
+
+/-- op "conc": replay the shared-access events of a real concurrent run (thread id + kind, in the
+order they took effect) on the model; an event whose kind is not the thread's next step is
+reported -/
+def opConc (j : Json) : Except String Json := do
+  let n ← getNat j "threads"
+  let raw ← getNat j "raw"
+  let inputs := (List.range n).map fun i => i + 100
+  let events ← (← (← j.getObjVal? "events").getArr?).toList.mapM fun e => do
+    let a ← e.getArr?
+    return ((← a[0]!.getNat?), (← a[1]!.getStr?))
+  let cooked := (j.getObjValAs? Bool "cooked").toOption.getD false
+  -- a template compiled before the threads start: the state a solo `cook()` leaves
+  let start : Sys Nat Nat Nat (Int × Int) :=
+    if cooked then { shared := { flag := true, blocks := some (engine.parse raw) }, pcs := (init n : Sys Nat Nat Nat (Int × Int)).pcs }
+    else init n
+  let (s, bad) := events.foldl (fun (acc : Sys Nat Nat Nat (Int × Int) × List String) ev =>
+    let (s, bad) := acc
+    let pc := (s.pcs[ev.1]?).map pcName |>.getD "?"
+    -- a `test` that finds the flag set goes straight on: nothing else to check there
+    let bad := if pc == ev.2 then bad else bad ++ [s!"thread {ev.1}: event {ev.2} at step {pc}"]
+    (stepSys engine raw inputs s ev.1, bad)) (start, [])
+  let results := s.pcs.map fun pc => match pc with
+    | .done (p, i) => Json.arr #[jInt p, jInt i]
+    | pc => Json.str (pcName pc)
+  return Json.mkObj [("results", Json.arr results.toArray), ("unexpected", Json.arr (bad.map Json.str).toArray),
+    ("flag", Json.bool s.shared.flag), ("blocks", match s.shared.blocks with | some p => Json.num p | none => Json.null)]
+
+end CJ
+
 def handle (j : Json) : Except String Json := do
   let op ← getStr j "op"
   match op with
@@ -565,6 +610,7 @@ def handle (j : Json) : Except String Json := do
   | "compile" => opCompile j
   | "render" => RJ.opRender j
   | "tmpl" => TJ.opTmpl j
+  | "conc" => CJ.opConc j
   | "ping" => return Json.str "pong"
   | _ => throw s!"unknown op {op}"
 
